@@ -33,6 +33,7 @@ pub fn all() -> Vec<Prop> {
         Prop { id: "C14", gen: gen_c14, monitor: mon::c14, bound_quick: Some(3), bound_thorough: None, max_execs_quick: 20_000, max_execs_thorough: 400_000, features: "f_deadlock" },
         Prop { id: "C15", gen: gen_c15, monitor: mon::c15, bound_quick: Some(3), bound_thorough: None, max_execs_quick: 20_000, max_execs_thorough: 400_000, features: "f_deadlock" },
         Prop { id: "C20", gen: gen_c20, monitor: mon::c20, bound_quick: Some(2), bound_thorough: Some(3), max_execs_quick: 5_000, max_execs_thorough: 100_000, features: "f_metrics" },
+        Prop { id: "C18", gen: gen_c18, monitor: mon::none, bound_quick: Some(2), bound_thorough: Some(2), max_execs_quick: 3_000, max_execs_thorough: 3_000, features: "" },
         Prop { id: "C13", gen: gen_c13, monitor: mon::c13, bound_quick: Some(2), bound_thorough: Some(3), max_execs_quick: 20_000, max_execs_thorough: 400_000, features: "f_testutils" },
     ]
 }
@@ -1758,4 +1759,61 @@ pub fn gen_c16(thorough: bool) -> Vec<(Scenario, Vec<Scenario>)> {
         }
     }
     groups
+}
+
+// ------------------------------------------------------------------ C18: features do not change behaviour
+
+/// A fixed list of cycle-free scenarios drawn from the other properties' grammars; every build of the harness
+/// (one per rsactor feature set) explores them and reports a signature of all (schedule, observable trace) pairs.
+fn gen_c18(thorough: bool) -> Vec<Scenario> {
+    let _ = thorough;
+    let mut out: Vec<Scenario> = Vec::new();
+    let mut take = |v: Vec<Scenario>, every: usize| {
+        for (i, s) in v.into_iter().enumerate() {
+            if i % every == 0 {
+                out.push(s);
+            }
+        }
+    };
+    take(gen_c01(false), 60);
+    take(gen_c03(false), 8);
+    take(gen_c04(false), 25);
+    take(gen_c06(false), 8);
+    take(gen_c07(false), 90);
+    take(gen_c08(false), 4);
+    take(gen_c10(false), 5);
+    take(gen_c11(false), 2);
+    take(gen_c13(false), 12);
+    // hooks that ask other actors, but never back (exercises the wait-for bookkeeping without any cycle)
+    for hook in [EdgeHook::Handler, EdgeHook::OnStart, EdgeHook::OnRun, EdgeHook::OnStop] {
+        for kind in [EdgeKind::Ask, EdgeKind::AskTO, EdgeKind::Erased] {
+            let mut ids = Ids(0);
+            let mut a0 = ActorSpec::plain(2);
+            let a1 = ActorSpec::plain(2);
+            let plain = MsgSpec::m1(ids.next()).steps(vec![Step::Yield]);
+            let asking = ask_steps(kind, 1, plain);
+            let mut clients = Vec::new();
+            match hook {
+                EdgeHook::Handler => {
+                    clients.push(Program::new(vec![(0, 0)], vec![send(SendKind::Tell, 0, MsgSpec::m1(ids.next()).steps(asking)), send(SendKind::Ask, 0, MsgSpec::m1(ids.next()))]));
+                }
+                EdgeHook::OnStart => a0.on_start = HookSpec { entry_yield: true, steps: asking, out: Outcome::Ok, free: false },
+                EdgeHook::OnRun => a0.on_run = vec![HookSpec { entry_yield: false, steps: [vec![Step::Yield], asking].concat(), out: Outcome::OkFalse, free: false }],
+                EdgeHook::OnStop => {
+                    a0.on_stop = HookSpec { entry_yield: true, steps: asking, out: Outcome::Ok, free: false };
+                    clients.push(Program::new(vec![(0, 0)], vec![Step::Stop(0)]));
+                }
+            }
+            clients.push(Program::new(vec![(0, 1), (1, 0)], vec![send(SendKind::Ask, 0, MsgSpec::m1(ids.next())), send(SendKind::Tell, 1, MsgSpec::m1(ids.next())), Step::Kill(0)]));
+            let mut s = scn(format!("c18-tree-{hook:?}-{kind:?}"), vec![a0, a1], clients, &[]);
+            s.registry = true;
+            out.push(s);
+        }
+    }
+    for (i, s) in out.iter_mut().enumerate() {
+        s.tags.retain(|t| t != "quiet" && t != "probe");
+        s.tags.push("feature_neutral".into());
+        s.name = format!("c18-{i}:{}", s.name);
+    }
+    out
 }
